@@ -917,16 +917,19 @@ pub fn apply_fault(t: &mut SupplyTrace, plan: &Plan, f: F, r: &mut Rng, prefer_s
                 .iter()
                 .filter_map(|(p, val)| {
                     let s = val.as_str()?;
-                    if p.contains("/keyval/") || crate::ceremony::escape_respellings(s).is_empty() {
+                    if p.contains("/keyval/") || (crate::ceremony::escape_respellings(s).is_empty() && crate::ceremony::line_ending_respellings(s).is_empty()) {
                         None
                     } else {
                         Some((p.clone(), s.to_string()))
                     }
                 })
                 .collect();
-            if !escapable.is_empty() && r.chance(1, 5) {
+            if !escapable.is_empty() && r.chance(1, 4) {
                 let (ptr, old) = r.pick(&escapable).clone();
-                let alts = crate::ceremony::escape_respellings(&old);
+                let mut alts = crate::ceremony::escape_respellings(&old);
+                // (line endings re-spelled count twice: a writer that normalises them is the likelier slip)
+                alts.extend(crate::ceremony::line_ending_respellings(&old));
+                alts.extend(crate::ceremony::line_ending_respellings(&old));
                 t.root.doc.ops.push(DocOp::Set { ptr, value: json!(r.pick(&alts).clone()) });
                 t.labels.push(fname(f).to_string());
                 t.labels.push("ESCAPE-RESPELLING".into());
